@@ -117,9 +117,25 @@ Definition children_stmt (f : nat) : Prop :=
     exists enc, cat_encs (map (genc true) cs) = Ok enc /\ bs = enc ++ rest /\ bytes_ok rest = true /\
                 pos + sumN (map size_box cs) = target.
 
-Lemma box_step f : box_stmt f -> children_stmt f -> box_stmt (S f).
+Definition entries_stmt (f : nat) : Prop :=
+  forall target pos bs cs rest, bytes_ok bs = true ->
+    decode_entries f target pos bs = Ok (cs, rest) -> forallb exact_box cs = true ->
+    exists enc, cat_encs (map (genc true) cs) = Ok enc /\ bs = enc ++ rest /\ bytes_ok rest = true.
+
+(* the children of an MPre box are written one after the other *)
+Lemma pre_body_cat keep cs :
+  fold_right (fun c acc => rcat (raw_box keep c) acc) (Ok []) cs = cat_encs (map (genc keep) cs).
+Proof. induction cs as [|c t IH]; [reflexivity|]. cbn [fold_right map cat_encs genc snd]. now rewrite IH. Qed.
+
+Lemma raw_box_pre keep h l r cs :
+  raw_box keep (MPre h l r cs) =
+  rcat (Ok (enc_hdr (leaf_name l) (size_leaf l + sumN (map size_box cs))))
+       (rcat (body_leaf l (if keep then r else dflt_rsv l)) (cat_encs (map (genc keep) cs))).
+Proof. cbn [raw_box]. now rewrite pre_body_cat. Qed.
+
+Lemma box_step f : box_stmt f -> children_stmt f -> entries_stmt f -> box_stmt (S f).
 Proof.
-  intros IHb IHc bs t rest Hok H Hex. cbn [decode_box] in H.
+  intros IHb IHc IHe bs t rest Hok H Hex. cbn [decode_box] in H.
   destruct (dec_hdr bs) as [[h r]| | |] eqn:Eh; try discriminate.
   destruct (dec_hdr_spec _ _ _ Hok Eh) as (Hokr & Hle & Hshape).
   destruct ((lenN r + h_len h <? h_size h) && negb (bytes_eqb (h_name h) n_mdat)); [discriminate|].
@@ -140,7 +156,36 @@ Proof.
     + unfold hdr_exact in Hh. apply andb_true_iff in Hh. destruct Hh as [H1 H2]. apply N.eqb_eq in H1, H2.
       destruct Hshape as [[_ ->]|[Hl _]]; [|lia]. rewrite H2.
       eexists; split; [reflexivity|]. split; [|assumption]. now rewrite <- app_assoc.
-  - destruct (is_cont (h_name h)).
+  - destruct (lookup (h_name h) pre_table) as [[d lk]|] eqn:Epre.
+    { (* prefixed box: stsd, dref, sample entries *)
+      destruct (d h r) as [[[l rsv] r1]| | |] eqn:Ed; try discriminate.
+      destruct (lookup_in _ _ _ Epre) as (k & Hin & Hk).
+      pose proof (proj1 (Forall_forall _ _) pre_table_ok _ Hin) as [Hloss Hname]. cbn [fst snd] in *.
+      specialize (Hname _ _ _ _ _ Hk Ed).
+      assert (Hgoal : forall cs r', exact_box (MPre h l rsv cs) = true ->
+                (bytes_ok r1 = true -> forallb exact_box cs = true ->
+                 exists enc, cat_encs (map (genc true) cs) = Ok enc /\ r1 = enc ++ r' /\ bytes_ok r' = true) ->
+                exists enc, raw_box true (MPre h l rsv cs) = Ok enc /\ bs = enc ++ r' /\ bytes_ok r' = true).
+      { intros cs r' Hex' Hkids. cbn [exact_box] in Hex'.
+        apply andb_true_iff in Hex'. destruct Hex' as [Hex' Hcs].
+        apply andb_true_iff in Hex'. destruct Hex' as [Hh Hg].
+        unfold hdr_exact in Hh. apply andb_true_iff in Hh. destruct Hh as [H1 H2]. apply N.eqb_eq in H1, H2.
+        destruct (Hloss _ _ _ _ _ Hokr Ed Hg) as (b & Hb & Hr & Hokr1).
+        destruct (Hkids Hokr1 Hcs) as (enc & Henc & Hr1 & Hokr').
+        rewrite raw_box_pre, Hb, Henc. cbn [rcat]. rewrite Hname, <- Hk, <- H2.
+        destruct Hshape as [[_ ->]|[Hl _]]; [|lia].
+        eexists; split; [reflexivity|]. split; [|assumption]. rewrite Hr, Hr1. now rewrite <- !app_assoc. }
+      destruct lk as [off|start].
+      - destruct (h_size h <? off); [discriminate|].
+        destruct (decode_children f (h_size h - off) 0 0 r1) as [[cs r']| | |] eqn:Ec; try discriminate.
+        destruct (pre_count_ok l (lenN cs)); [|discriminate]. injection H as <- <-.
+        apply Hgoal; [assumption|]. intros Hokr1 Hcs.
+        destruct (IHc _ _ _ _ _ _ Hokr1 Ec Hcs) as (enc & Henc & Hr1 & Hokr' & _). now exists enc.
+      - destruct (decode_entries f (h_size h) start r1) as [[cs r']| | |] eqn:Ec; try discriminate.
+        injection H as <- <-.
+        apply Hgoal; [assumption|]. intros Hokr1 Hcs.
+        destruct (IHe _ _ _ _ _ Hokr1 Ec Hcs) as (enc & Henc & Hr1 & Hokr'). now exists enc. }
+    destruct (is_cont (h_name h)).
     + (* container *)
       destruct (decode_children f (h_size h - 8) 0 0 r) as [[cs r']| | |] eqn:Ec; try discriminate.
       destruct (bytes_eqb (h_name h) n_edts && negb (edts_ok cs)); [discriminate|].
@@ -193,11 +238,25 @@ Proof.
     + cbn [sumN]. lia.
 Qed.
 
-Lemma tree_both f : box_stmt f /\ children_stmt f.
+Lemma entries_step f : box_stmt f -> entries_stmt f -> entries_stmt (S f).
 Proof.
-  induction f as [|f [IHb IHc]].
-  - split; intros until 1; cbn; discriminate.
-  - split; [now apply box_step|now apply children_step].
+  intros IHb IHe target pos bs cs rest Hok H Hex. cbn [decode_entries] in H.
+  destruct (target <=? pos).
+  - injection H as <- <-. exists []. cbn. now repeat split.
+  - destruct (decode_box f bs) as [[c r]| | |] eqn:Eb; try discriminate.
+    destruct (decode_entries f target (pos + size_box c) r) as [[cs' r']| | |] eqn:Ec; try discriminate.
+    injection H as <- <-. cbn [forallb] in Hex. apply andb_true_iff in Hex. destruct Hex as [Hc Hcs].
+    destruct (IHb _ _ _ Hok Eb Hc) as (e1 & He1 & -> & Hokr).
+    destruct (IHe _ _ _ _ _ Hokr Ec Hcs) as (e2 & He2 & -> & Hokr').
+    exists (e1 ++ e2). cbn [map cat_encs fold_right genc snd]. fold (cat_encs (map (genc true) cs')).
+    rewrite He1, He2. cbn [rcat]. repeat split; try assumption. now rewrite <- app_assoc.
+Qed.
+
+Lemma tree_both f : box_stmt f /\ children_stmt f /\ entries_stmt f.
+Proof.
+  induction f as [|f (IHb & IHc & IHe)].
+  - repeat split; intros until 1; cbn; discriminate.
+  - repeat split; [now apply box_step|now apply children_step|now apply entries_step].
 Qed.
 
 Lemma tree_lossless bs t rest :
